@@ -4,7 +4,7 @@
 use crate::kit::rng::Rng;
 use crate::run::guarded;
 use anthem::syntax_tree::{asp::mini_gringo as asp, fol::sigma_0 as fol};
-use anthem::verif::{Decomposition, ExternalEquivalenceTask, FormulaRepresentation, Problem, Role, StrongEquivalenceTask, Task};
+use anthem::verif::{AnnotatedFormula as ProblemFormula, Decomposition, ExternalEquivalenceTask, FormulaRepresentation, Problem, Role, StrongEquivalenceTask, Task};
 use either::Either;
 
 #[derive(Clone, Copy, Debug, PartialEq, Eq)]
@@ -78,6 +78,105 @@ pub struct ProblemData {
     /// (formula name, is conjecture, formula)
     pub formulas: Vec<(String, bool, fol::Formula)>,
     pub text: String,
+    /// (symbolic constant of the input files, name it has in this problem): observed by handing
+    /// anthem's own `Problem::rename_conflicting_symbols` a probe atom listing the constants
+    /// next to the problem's formulas; no naming scheme is assumed
+    pub symbol_map: Vec<(String, String)>,
+}
+
+/// Names the given symbolic constants of the input files carry inside problem `p`. The renaming
+/// is a function of the constant and of the predicates of the problem only, so renaming a probe
+/// atom `avm_probe(c1, ..., ck)` placed next to the problem's formulas shows it.
+pub fn observed_symbol_map(p: &Problem, symbols: &[String]) -> Vec<(String, String)> {
+    if symbols.is_empty() {
+        return Vec::new();
+    }
+    let probe = fol::Formula::AtomicFormula(fol::AtomicFormula::Atom(fol::Atom {
+        predicate_symbol: "avm_probe".into(),
+        terms: symbols.iter().map(|c| fol::GeneralTerm::SymbolicTerm(fol::SymbolicTerm::Symbol(c.clone()))).collect(),
+    }));
+    let mut q = p.clone();
+    q.formulas.push(ProblemFormula { name: "avm_probe".into(), role: Role::Axiom, formula: probe });
+    let Ok(q) = guarded(move || q.rename_conflicting_symbols()) else { return Vec::new() };
+    match q.formulas.last().map(|f| &f.formula) {
+        Some(fol::Formula::AtomicFormula(fol::AtomicFormula::Atom(a))) if a.terms.len() == symbols.len() => symbols
+            .iter()
+            .zip(a.terms.iter())
+            .filter_map(|(c, t)| match t {
+                fol::GeneralTerm::SymbolicTerm(fol::SymbolicTerm::Symbol(n)) => Some((c.clone(), n.clone())),
+                _ => None,
+            })
+            .collect(),
+        _ => Vec::new(),
+    }
+}
+
+fn rename_symbols(f: &fol::Formula, back: &std::collections::BTreeMap<String, String>) -> fol::Formula {
+    fn st(t: &fol::SymbolicTerm, back: &std::collections::BTreeMap<String, String>) -> fol::SymbolicTerm {
+        match t {
+            fol::SymbolicTerm::Symbol(s) => fol::SymbolicTerm::Symbol(back.get(s).cloned().unwrap_or_else(|| s.clone())),
+            x => x.clone(),
+        }
+    }
+    fn gt(t: &fol::GeneralTerm, back: &std::collections::BTreeMap<String, String>) -> fol::GeneralTerm {
+        match t {
+            fol::GeneralTerm::SymbolicTerm(s) => fol::GeneralTerm::SymbolicTerm(st(s, back)),
+            x => x.clone(),
+        }
+    }
+    match f {
+        fol::Formula::AtomicFormula(fol::AtomicFormula::Atom(a)) => {
+            fol::Formula::AtomicFormula(fol::AtomicFormula::Atom(fol::Atom { predicate_symbol: a.predicate_symbol.clone(), terms: a.terms.iter().map(|t| gt(t, back)).collect() }))
+        }
+        fol::Formula::AtomicFormula(fol::AtomicFormula::Comparison(c)) => fol::Formula::AtomicFormula(fol::AtomicFormula::Comparison(fol::Comparison {
+            term: gt(&c.term, back),
+            guards: c.guards.iter().map(|g| fol::Guard { relation: g.relation, term: gt(&g.term, back) }).collect(),
+        })),
+        fol::Formula::AtomicFormula(a) => fol::Formula::AtomicFormula(a.clone()),
+        fol::Formula::UnaryFormula { connective, formula } => fol::Formula::UnaryFormula { connective: connective.clone(), formula: Box::new(rename_symbols(formula, back)) },
+        fol::Formula::BinaryFormula { connective, lhs, rhs } => fol::Formula::BinaryFormula { connective: connective.clone(), lhs: Box::new(rename_symbols(lhs, back)), rhs: Box::new(rename_symbols(rhs, back)) },
+        fol::Formula::QuantifiedFormula { quantification, formula } => fol::Formula::QuantifiedFormula { quantification: quantification.clone(), formula: Box::new(rename_symbols(formula, back)) },
+    }
+}
+
+/// The problems of a task as plain data. anthem renames symbolic constants once per direction,
+/// on the problem that still holds all conjectures, and splits it afterwards: the probe therefore
+/// sees the formulas of the whole family `<direction>[_problem]_<i>` (outline problems
+/// `*_outline_<i>_<j>` are built and renamed one by one).
+pub fn problem_data(problems: &[Problem], symbols: &[String]) -> Vec<ProblemData> {
+    fn family(name: &str) -> String {
+        if name.contains("_outline_") {
+            return name.to_string();
+        }
+        match name.rfind('_') {
+            Some(i) if !name[i + 1..].is_empty() && name[i + 1..].chars().all(|c| c.is_ascii_digit()) => name[..i].to_string(),
+            _ => name.to_string(),
+        }
+    }
+    let mut maps: std::collections::BTreeMap<String, Vec<(String, String)>> = std::collections::BTreeMap::new();
+    if !symbols.is_empty() {
+        for p in problems {
+            let fam = family(&p.name);
+            if maps.contains_key(&fam) {
+                continue;
+            }
+            let mut all = p.clone();
+            for q in problems {
+                if q.name != p.name && family(&q.name) == fam {
+                    all.formulas.extend(q.formulas.iter().cloned());
+                }
+            }
+            maps.insert(fam, observed_symbol_map(&all, symbols));
+        }
+    }
+    problems
+        .iter()
+        .map(|p| {
+            let mut d = ProblemData::from(p);
+            d.symbol_map = maps.get(&family(&p.name)).cloned().unwrap_or_default();
+            d
+        })
+        .collect()
 }
 
 impl ProblemData {
@@ -86,7 +185,41 @@ impl ProblemData {
             name: p.name.clone(),
             formulas: p.formulas.iter().map(|f| (f.name.clone(), f.role == Role::Conjecture, f.formula.clone())).collect(),
             text: p.to_string(),
+            symbol_map: Vec::new(),
         }
+    }
+    /// two different constants of the input files carry the same name in this problem
+    pub fn identifies_symbols(&self) -> bool {
+        let mut seen: std::collections::BTreeMap<&str, &str> = std::collections::BTreeMap::new();
+        for (c, n) in &self.symbol_map {
+            if let Some(prev) = seen.insert(n.as_str(), c.as_str()) {
+                if prev != c.as_str() {
+                    return true;
+                }
+            }
+        }
+        false
+    }
+    /// the problem with every symbolic constant under the name it has in the input files (the
+    /// renaming is name mangling: a renamed constant is meant to denote the original one). Where
+    /// two constants were given one name, the first of them is used.
+    pub fn with_original_symbols(&self) -> ProblemData {
+        let mut back: std::collections::BTreeMap<String, String> = std::collections::BTreeMap::new();
+        for (c, n) in &self.symbol_map {
+            if c != n {
+                back.entry(n.clone()).or_insert_with(|| c.clone());
+            }
+        }
+        // a constant that kept its name must keep denoting itself
+        for (c, n) in &self.symbol_map {
+            if c == n {
+                back.remove(n);
+            }
+        }
+        if back.is_empty() {
+            return self.clone();
+        }
+        ProblemData { name: self.name.clone(), formulas: self.formulas.iter().map(|(n, c, f)| (n.clone(), *c, rename_symbols(f, &back))).collect(), text: self.text.clone(), symbol_map: self.symbol_map.clone() }
     }
     pub fn axioms(&self) -> impl Iterator<Item = &fol::Formula> {
         self.formulas.iter().filter(|f| !f.1).map(|f| &f.2)
@@ -116,8 +249,11 @@ pub fn build_strong(left: &asp::Program, right: &asp::Program, mu: bool, flags: 
         simplify: flags.simplify,
         break_equivalences: flags.break_equivalences,
     };
+    let mut symbols: Vec<String> = left.function_constants().into_iter().chain(right.function_constants()).collect();
+    symbols.sort();
+    symbols.dedup();
     match guarded(move || task.decompose()) {
-        Ok(Ok(w)) => Built::Ok { problems: w.data.iter().map(ProblemData::from).collect(), warnings: w.warnings.iter().map(|x| format!("{x:?}")).collect() },
+        Ok(Ok(w)) => Built::Ok { problems: problem_data(&w.data, &symbols), warnings: w.warnings.iter().map(|x| format!("{x:?}")).collect() },
         Ok(Err(e)) => Built::Refused(format!("{e:?}")),
         Err(p) => Built::Panic(p),
     }
@@ -165,8 +301,20 @@ pub fn build_external(p: &ExtParsed, bypass_tightness: bool, flags: Flags) -> Bu
         simplify: flags.simplify,
         break_equivalences: flags.break_equivalences,
     };
+    let mut symbols: Vec<String> = p.right.function_constants().into_iter().collect();
+    match &p.left {
+        Either::Left(l) => symbols.extend(l.function_constants()),
+        Either::Right(s) => symbols.extend(s.formulas.iter().flat_map(|f| f.formula.symbols())),
+    }
+    symbols.extend(p.ug.formulas().iter().flat_map(|f| f.formula.symbols()));
+    symbols.extend(p.po.formulas.iter().flat_map(|f| f.formula.symbols()));
+    symbols.sort();
+    symbols.dedup();
+    // placeholders are function constants in the problems, not symbolic constants
+    let placeholders: Vec<String> = p.ug.placeholders().into_iter().map(|c| c.name).collect();
+    symbols.retain(|c| !placeholders.contains(c));
     match guarded(move || task.decompose()) {
-        Ok(Ok(w)) => Built::Ok { problems: w.data.iter().map(ProblemData::from).collect(), warnings: w.warnings.iter().map(|x| x.to_string()).collect() },
+        Ok(Ok(w)) => Built::Ok { problems: problem_data(&w.data, &symbols), warnings: w.warnings.iter().map(|x| x.to_string()).collect() },
         Ok(Err(e)) => Built::Refused(e.to_string()),
         Err(p) => Built::Panic(p),
     }
@@ -204,17 +352,21 @@ pub struct ExtOpts {
     /// user-guide assumptions that write sorted function constants directly (n$g next to the
     /// placeholder n -> integer)
     pub sorted_constants: bool,
+    /// private predicates named like the renamed copy of another one (aux, aux_p, aux_p_p)
+    pub renamed_twins: bool,
+    /// symbolic constants named like 0-ary predicates, and constants named like their renamed forms
+    pub symbols_like_predicates: bool,
 }
 
 impl Default for ExtOpts {
     fn default() -> Self {
-        ExtOpts { hostile_identifiers: false, underscore_identifiers: false, two_arities: false, preamble_names: false, with_spec: false, with_outline: false, max_privates: 2, max_outputs: 2, skip_many_outputs: false, sorted_constants: false }
+        ExtOpts { hostile_identifiers: false, underscore_identifiers: false, two_arities: false, preamble_names: false, with_spec: false, with_outline: false, max_privates: 2, max_outputs: 2, skip_many_outputs: false, sorted_constants: false, renamed_twins: false, symbols_like_predicates: false }
     }
 }
 
 pub fn gen_signature(r: &mut Rng, o: &ExtOpts) -> Signature {
     let mut in_pool: Vec<(&str, usize)> = if o.hostile_identifiers {
-        vec![("in", 1), ("e", 2), ("in_i", 1), ("p__less__x", 2), ("n", 1), ("hq", 1), ("flag", 0)]
+        vec![("in", 1), ("e", 2), ("in_i", 1), ("p__less__x", 2), ("n", 1), ("hq", 1), ("flag", 0), ("n_i", 0), ("c_g", 0)]
     } else {
         vec![("in", 1), ("e", 2), ("d", 1), ("flag", 0)]
     };
@@ -246,6 +398,15 @@ pub fn gen_signature(r: &mut Rng, o: &ExtOpts) -> Signature {
         let (n, a) = out_pool[r.upto(out_pool.len())];
         if !outputs.iter().any(|(x, y)| x == n && *y == a) && !inputs.iter().any(|(x, y)| x == n && *y == a) {
             outputs.push((n.to_string(), a));
+        }
+    }
+    if o.symbols_like_predicates {
+        // make sure there is a 0-ary predicate for the symbolic constants to clash with
+        if !outputs.iter().any(|(x, _)| x == "res") && !inputs.iter().any(|(x, _)| x == "res") {
+            outputs.push(("res".to_string(), 0));
+        }
+        if !inputs.iter().any(|(x, _)| x == "in") {
+            inputs.push(("in".to_string(), 1));
         }
     }
     let ph_pool: Vec<(&str, &str)> = if o.hostile_identifiers && o.underscore_identifiers {
@@ -497,6 +658,9 @@ pub fn gen_external(r: &mut Rng, o: &ExtOpts) -> (ExtTexts, Signature) {
     if o.underscore_identifiers {
         priv_pool.push(("_t", 1));
     }
+    if o.renamed_twins {
+        priv_pool = vec![("aux", 1), ("aux_p", 1), ("aux_p_p", 1), ("on", 0), ("on_p", 0)];
+    }
     if o.two_arities {
         priv_pool.push(("aux", 2));
     }
@@ -517,6 +681,9 @@ pub fn gen_external(r: &mut Rng, o: &ExtOpts) -> (ExtTexts, Signature) {
     }
     if o.preamble_names {
         symbols.extend(["general", "symbol", "c__infimum__"]);
+    }
+    if o.symbols_like_predicates {
+        symbols = vec!["res", "res__s", "a", "res", "res__s", "res__s__s"];
     }
     let lp = pick_privs(r);
     let rp = if r.chance(1, 2) { lp.clone() } else { pick_privs(r) };
@@ -609,7 +776,7 @@ pub fn gen_strong_with(r: &mut Rng, so: StrongOpts) -> (String, String) {
         o.symbols.push("_c".into());
     }
     if so.hostile_symbols {
-        o.symbols = vec!["a".into(), "p".into(), "t".into(), "s".into(), "hp".into(), "s0".into(), "x__s".into(), "p_i".into(), "aB".into(), "aa".into(), "a_b".into(), "aZ".into(), "a0".into(), "maxValue".into(), "max_value".into()];
+        o.symbols = vec!["a".into(), "p".into(), "t".into(), "s".into(), "hp".into(), "s0".into(), "x__s".into(), "p_i".into(), "aB".into(), "aa".into(), "a_b".into(), "aZ".into(), "a0".into(), "maxValue".into(), "max_value".into(), "hp__s".into(), "t__s".into()];
     }
     if so.preamble_names {
         o.symbols.extend(["general".to_string(), "symbol".to_string(), "f__integer__".to_string()]);
